@@ -26,11 +26,14 @@ C03_OPS = ["eq", "neq", "lt", "le", "gt", "ge", "select", "bool_and", "bool_or",
 C02_OPS = ["add", "sub", "mul", "div", "sqrt", "neg", "abs", "copysign", "bitofsign", "bitwise_and", "bitwise_or", "bitwise_xor",
            "bitwise_andnot", "bitwise_not", "fma", "fms", "fnma", "fnms", "min", "max", "isnan", "isinf", "isfinite", "is_flint",
            "is_even", "is_odd", "sign", "signnz"]
-C08_OPS = ["ceil", "floor", "trunc", "round", "nearbyint", "rint"]
+C08_OPS = ["ceil", "floor", "trunc", "round", "nearbyint", "rint", "nearbyint_as_int"]
 
 C04_OPS = ["load_aligned", "load_unaligned", "store_aligned", "store_unaligned", "broadcast"]
 
+C06_OPS = [o for o in entries.OPS if o.startswith("batch_cast_to_") or o.startswith("bitwise_cast_to_")] + ["to_int", "to_float"]
+
 PROPS = {
+    "C06": dict(ops=C06_OPS, types=ALL_TYPES, design="5.7"),
     "C04": dict(ops=C04_OPS, types=ALL_TYPES, design="5.5"),
     "C02": dict(ops=C02_OPS, types=FLOAT_TYPES, design="5.3"),
     "C08": dict(ops=C08_OPS, types=FLOAT_TYPES, design="5.9"),
@@ -48,6 +51,24 @@ def quick_filter(pid):
         if base in ARCH_FILES:
             return base == ARCH_FILE.get(fn.aid)
         return fn.aid in QUICK_BASE
+    return f
+
+
+def quick_pre_filter(pid):
+    return lambda fn: table.prop_of(fn) == pid
+
+
+def quick_post_filter(pid):
+    """quick tier: a function is proved for architecture A if it is defined in A's own header, or has code of A's own header inlined
+    into it (architecture-specific detail helpers), or A is one of the base architectures for the architecture-independent layers"""
+    def f(fn, job):
+        base = os.path.basename(fn.file)
+        own = ARCH_FILE.get(fn.aid)
+        if base in ARCH_FILES:
+            return base == own
+        if fn.aid in QUICK_BASE:
+            return True
+        return any(os.path.basename(i.get("file", "")) == own for i in job.get("inlined", []))
     return f
 
 
@@ -187,8 +208,8 @@ def run_value_property(pid, tier, seed, only_archs=None, only_ops=None, only_typ
     ops = only_ops or cfg["ops"]
     types = only_types or cfg["types"]
     cases = [(o, t, a) for o in ops for t in types if t in entries.OPS[o][2] for a in archs]
-    flt = quick_filter(pid) if tier == "quick" else thorough_filter(pid)
-    rep = check.run_cases(pid, cases, tier, seed, props_filter=flt)
+    flt = quick_pre_filter(pid) if tier == "quick" else thorough_filter(pid)
+    rep = check.run_cases(pid, cases, tier, seed, props_filter=flt, post_filter=quick_post_filter(pid) if tier == "quick" else None)
     rep.notes["architectures"] = archs
     rep.notes["element_types"] = types
     rep.notes["operations"] = ops
